@@ -606,6 +606,8 @@ func (txn *Txn) commitAndSend() (func() error, error) {
 		return nil, utils.ErrConflict
 	}
 
+	utils.VerifYield("txn.commit.beforeSend")
+
 	setVersion := func(e *kv.Entry) {
 		if e.Version == 0 {
 			e.Version = commitTs
